@@ -436,30 +436,36 @@ def checkC12 (steps : List Step) : Option (Nat × String) := Id.run do
   match checkC16 steps with
   | some (i, msg) => return some (i, "C12 (the session table the Hello rule is stated over): " ++ msg)
   | none => pure ()
-  let mut s : Seen := {}
-  let mut evs : List TickEv := []
-  let mut wiredOnly := true
-  for st in steps do
-    let s' := absorb s st.out
-    match st.op with
-    | ["tick", _, _, t, port] =>
-      if port != "wired" then wiredOnly := false
-      let inc := match parseDec t with
-        | some T => match s'.tbl.lookup T with | some v => v.live.any (fun p => !p.2.complete) | none => false
-        | none => false
-      evs := evs ++ [{ isTick := true, hellos := helloTimes st.out, incomplete := inc }]
-    | _ => evs := evs ++ [{ isTick := false, hellos := helloTimes st.out, incomplete := false }]
-    s := s'
-  if !wiredOnly then return none
-  if holdsC12 evs then return none
-  -- locate the first offending prefix
-  let mut k := 0
-  for _ in evs do
-    k := k + 1
-    if !holdsC12 (evs.take k) then
-      let e := evs[k - 1]!
-      return some (k - 1, s!"periodic Hello rule broken: hellos at {e.hellos} (tick={e.isTick}, live incomplete session={e.incomplete}); all Hello times so far {(evs.take k).flatMap (·.hellos)}")
-  return some (0, "periodic Hello rule broken")
+  -- one responder = one RepeatBand automaton (the tick's second argument) with its own session table and its own
+  -- last-transmit time stamp: the rule is stated per responder; several of them may live in one process
+  let enums : List String := (steps.filterMap (fun st => match st.op with | ["tick", _, e, _, _] => some e | _ => none)).eraseDups
+  for en in enums do
+    let mut s : Seen := {}
+    let mut evs : List TickEv := []
+    let mut wiredOnly := true
+    for st in steps do
+      let s' := absorb s st.out
+      match st.op with
+      | ["tick", _, e, t, port] =>
+        if e == en then
+          if port != "wired" then wiredOnly := false
+          let inc := match parseDec t with
+            | some T => match s'.tbl.lookup T with | some v => v.live.any (fun p => !p.2.complete) | none => false
+            | none => false
+          evs := evs ++ [{ isTick := true, hellos := helloTimes st.out, incomplete := inc }]
+        else evs := evs ++ [{ isTick := false, hellos := [], incomplete := false }]      -- another responder's tick
+      | _ => evs := evs ++ [{ isTick := false, hellos := helloTimes st.out, incomplete := false }]
+      s := s'
+    if wiredOnly && !holdsC12 evs then
+      -- locate the first offending prefix
+      let mut k := 0
+      for _ in evs do
+        k := k + 1
+        if !holdsC12 (evs.take k) then
+          let e := evs[k - 1]!
+          return some (k - 1, s!"periodic Hello rule broken (responder with RepeatBand automaton {en}): hellos at {e.hellos} (tick={e.isTick}, live incomplete session={e.incomplete}); all Hello times so far {(evs.take k).flatMap (·.hellos)}")
+      return some (0, "periodic Hello rule broken")
+  return none
 
 /-! ## Block side: per-interface traces of received frames -/
 
